@@ -167,9 +167,7 @@ package floatingip
 //@   loop 0 invariant forall k string :: visited[k] && k in ci.unallocatedFIPs ==> !hasSubnet(ci.unallocatedFIPs[k].pool, nodeSubnetStr)
 
 // ---- AllocateInSubnetsAndIPRange (C08): one IP per requested range, all or nothing ----
-//@ uninterp ipv4str(v mint) string
 //@ pure eligible(ci *crdIpam, s string, subnet string) bool = s in ci.unallocatedFIPs && hasSubnet(ci.unallocatedFIPs[s].pool, subnet)
-//@ uninterp ipv4val(s string) mint
 //@ pure inRanges(rs []nets.IPRange, s string) bool = s == ipv4str(ipv4val(s)) && exists r int :: 0 <= r && r < len(rs) && nets.val(rs[r].First) <= ipv4val(s) && ipv4val(s) <= nets.val(rs[r].Last)
 // the facts about a picked IP are stated over the ENTRY state (old): phase 1 does not change the
 // tables or the requested ranges, and this is what the postcondition needs
@@ -208,8 +206,8 @@ package floatingip
 //@   loop 1 invariant forall k string :: (forall j int :: 0 <= j && j < idx ==> allocatedIPStrs[j] != k) ==> storeSameAt(k)
 //@   loop 1 invariant forall j int :: 0 <= j && j < idx ==> allocatedFips[j] != nil && fresh(allocatedFips[j])
 //@   loop 1 invariant forall j int :: 0 <= j && j < idx ==> attrApplied(allocatedFips[j], key, attr)
-//@   loop 1 invariant forall j int :: 0 <= j && j < idx ==> allocatedFips[j].IP == old(ci.unallocatedFIPs[allocatedIPStrs[j]].IP) && allocatedFips[j].pool == old(ci.unallocatedFIPs[allocatedIPStrs[j]].pool)
-//@   loop 1 invariant forall j int :: 0 <= j && j < idx ==> allocatedIPs[j] == old(ci.unallocatedFIPs[allocatedIPStrs[j]].IP)
+//@   loop 1 invariant forall j int :: 0 <= j && j < idx ==> (let s = allocatedIPStrs[j] in allocatedFips[j].IP == old(ci.unallocatedFIPs[s].IP) && allocatedFips[j].pool == old(ci.unallocatedFIPs[s].pool))
+//@   loop 1 invariant forall j int :: 0 <= j && j < idx ==> (let s = allocatedIPStrs[j] in allocatedIPs[j] == old(ci.unallocatedFIPs[s].IP))
 //@   loop 2 invariant old(faults) <= 1 ==> faults == 0
 //@   loop 2 invariant 0 <= idx && idx <= i && i < len(allocatedIPStrs)
 //@   loop 2 invariant old(faults) <= 1 ==> forall j int :: 0 <= j && j < idx ==> !StoreDom[allocatedIPStrs[j]]
